@@ -14,6 +14,7 @@ mod vcases;
 mod c20;
 mod out;
 mod par;
+mod pcases;
 mod rng;
 mod sx;
 
@@ -38,6 +39,7 @@ fn main() {
         "C13" => c13::run(tier, seed, outdir),
         "C16" => c16::run(tier, seed, outdir),
         "C01" | "C02" | "C03" | "C05" | "C06" | "C08" | "C12" => vcases::run(prop, tier, seed, outdir),
+        "C04" | "C07" => pcases::run(prop, tier, seed, outdir),
         "C19" => c19::run(tier, seed, outdir),
         "C09" => c09::run(tier, seed, outdir),
         "C20" => c20::run(tier, seed, outdir),
